@@ -264,6 +264,24 @@ func (cc *cmapCase) seen(c *fw.Ctx) {
 	c.Count("cmap_sections", int64(cc.st.CharSections+cc.st.RangeSections))
 	c.Count("cmap_mixed_form_sections", int64(cc.st.MixedRangeSections))
 	c.Count("cmap_arrays_sharing_a_line", int64(cc.st.ArraysSharingLine))
+	bucket := func(n int) string {
+		switch {
+		case n >= 100:
+			return "100"
+		case n >= 50:
+			return "50-99"
+		case n >= 10:
+			return "10-49"
+		case n >= 2:
+			return "2-9"
+		}
+		return fmt.Sprint(n)
+	}
+	c.Seen("cmap_largest_section_entries", bucket(cc.st.MaxSectionEntries))
+	if cc.st.MaxArrayLen > 0 {
+		c.Seen("cmap_longest_array", bucket(cc.st.MaxArrayLen))
+	}
+	c.Seen("cmap_map_entries", bucket(len(cc.g.m.Entries)))
 	forms := ""
 	if cc.st.BfChar > 0 {
 		forms += "bfchar+"
